@@ -20,6 +20,7 @@ NOT proved (named `_partial`): a cursor-level copy of protozero's pointer arithm
 -/
 import Osmium.Lemmas.HostilePbf
 import Osmium.Lemmas.HostileLayout
+import Osmium.Lemmas.HostileGuards
 
 namespace Osmium.HostilePbf.C03
 
@@ -64,109 +65,6 @@ theorem pbf_strings_come_from_table (r : ROpts) (bs : Bytes) (h : Header) (objs 
 
 /-! ### decoded objects and the builders' guards -/
 
-theorem mem_tagStrings_key {ts : List Tag} {t : Tag} (h : t ∈ ts) : t.key ∈ tagStrings ts := by
-  unfold tagStrings; exact List.mem_flatMap.mpr ⟨t, h, by simp⟩
-
-theorem mem_tagStrings_value {ts : List Tag} {t : Tag} (h : t ∈ ts) : t.value ∈ tagStrings ts := by
-  unfold tagStrings; exact List.mem_flatMap.mpr ⟨t, h, by simp⟩
-
-theorem tagsSub_lengths (ts : List Tag) (h : ∀ s ∈ tagStrings ts, s.length ≤ maxStr) :
-    ∀ s ∈ tagsSub ts, s.lengthsOk = true := by
-  intro s hs
-  unfold tagsSub at hs
-  split at hs
-  · cases hs
-  · simp only [List.mem_singleton] at hs
-    subst hs
-    simp only [SubS.lengthsOk, List.all_eq_true, List.mem_map, Bool.and_eq_true, decide_eq_true_eq]
-    rintro kv ⟨t, ht, rfl⟩
-    exact ⟨h _ (mem_tagStrings_key ht), h _ (mem_tagStrings_value ht)⟩
-
-theorem tagsSub_extra (ts : List Tag) (h : ∀ s ∈ tagStrings ts, noNul s = true) :
-    ∀ s ∈ tagsSub ts, s.extraOk = true := by
-  intro s hs
-  unfold tagsSub at hs
-  split at hs
-  · cases hs
-  · simp only [List.mem_singleton] at hs
-    subst hs
-    simp only [SubS.extraOk, List.all_eq_true, List.mem_map, Bool.and_eq_true]
-    rintro kv ⟨t, ht, rfl⟩
-    exact ⟨h _ (mem_tagStrings_key ht), h _ (mem_tagStrings_value ht)⟩
-
-/-- guards of an object whose strings are short and NUL-free -/
-theorem guards_of_strings (fill : UInt8) (fixed : Bytes) (o : Object)
-    (hle : ∀ s ∈ strsOf o, s.length ≤ maxOsmStringLength) (hn : NulFree o)
-    (hnc : ∀ a b c d e f g i j k l, o ≠ .changeset a b c d e f g i j k l)
-    (hf : fixed.length = (toObjS fixed o).kind.sizeT - 8)
-    (hs : objSize fill (toObjS fixed o) < 2 ^ 32) :
-    Guards fill (toObjS fixed o) := by
-  have hmax : maxOsmStringLength = maxStr := rfl
-  cases o with
-  | node m l =>
-    refine ⟨hf, ?_, ?_, ?_, ?_, hs⟩
-    · exact tagsSub_lengths _ (fun s hs' => hmax ▸ hle s (List.mem_cons_of_mem _ hs'))
-    · have := hle m.user (List.mem_cons_self ..)
-      show m.user.length + 1 < 2 ^ 16
-      simp only [maxOsmStringLength] at this; omega
-    · exact hn m.user (List.mem_cons_self ..)
-    · exact tagsSub_extra _ (fun s hs' => hn s (List.mem_cons_of_mem _ hs'))
-  | way m ns =>
-    refine ⟨hf, ?_, ?_, ?_, ?_, hs⟩
-    · intro s hs'
-      simp only [toObjS, List.mem_append] at hs'
-      rcases hs' with hs' | hs'
-      · split at hs'
-        · cases hs'
-        · simp only [List.mem_singleton] at hs'; subst hs'; rfl
-      · exact tagsSub_lengths _ (fun s hs'' => hmax ▸ hle s (List.mem_cons_of_mem _ hs'')) s hs'
-    · have := hle m.user (List.mem_cons_self ..)
-      show m.user.length + 1 < 2 ^ 16
-      simp only [maxOsmStringLength] at this; omega
-    · exact hn m.user (List.mem_cons_self ..)
-    · intro s hs'
-      simp only [toObjS, List.mem_append] at hs'
-      rcases hs' with hs' | hs'
-      · split at hs'
-        · cases hs'
-        · simp only [List.mem_singleton] at hs'; subst hs'; rfl
-      · exact tagsSub_extra _ (fun s hs'' => hn s (List.mem_cons_of_mem _ hs'')) s hs'
-  | relation m ms =>
-    have hrole : ∀ x ∈ ms, x.role ∈ strsOf (.relation m ms) := by
-      intro x hx
-      simp only [strsOf, List.mem_cons, List.mem_append, List.mem_map]
-      exact Or.inr ⟨x, hx, rfl⟩
-    have htag : ∀ s ∈ tagStrings m.tags, s ∈ strsOf (.relation m ms) := by
-      intro s hs'
-      simp only [strsOf, List.mem_cons, List.mem_append]
-      exact Or.inl (Or.inr hs')
-    refine ⟨hf, ?_, ?_, ?_, ?_, hs⟩
-    · intro s hs'
-      simp only [toObjS, List.mem_append] at hs'
-      rcases hs' with hs' | hs'
-      · split at hs'
-        · cases hs'
-        · simp only [List.mem_singleton] at hs'; subst hs'
-          simp only [SubS.lengthsOk, List.all_eq_true, List.mem_map, decide_eq_true_eq]
-          rintro mm ⟨x, hx, rfl⟩
-          exact hmax ▸ hle _ (hrole x hx)
-      · exact tagsSub_lengths _ (fun s hs'' => hmax ▸ hle s (htag s hs'')) s hs'
-    · have := hle m.user (List.mem_cons_self ..)
-      show m.user.length + 1 < 2 ^ 16
-      simp only [maxOsmStringLength] at this; omega
-    · exact hn m.user (List.mem_cons_self ..)
-    · intro s hs'
-      simp only [toObjS, List.mem_append] at hs'
-      rcases hs' with hs' | hs'
-      · split at hs'
-        · cases hs'
-        · simp only [List.mem_singleton] at hs'; subst hs'
-          simp only [SubS.extraOk, List.all_eq_true, List.mem_map]
-          rintro mm ⟨x, hx, rfl⟩
-          exact hn _ (hrole x hx)
-      · exact tagsSub_extra _ (fun s hs'' => hn s (htag s hs'')) s hs'
-  | changeset a b c d e f g i j k l => exact absurd rfl (hnc a b c d e f g i j k l)
-
 /-- THE FULL STATEMENT: whatever the PBF decoder builds from any byte string can be traversed in
     bounds.  (`fixed`: the integer fields written by `set_xxx`, of the size the constructor
     reserves; the item is smaller than 4 GiB — the size field of an item is 32 bits; a block is at
@@ -191,13 +89,10 @@ theorem pbf_decoded_objects_guards (r : ROpts) (bs : Bytes) (h : Header) (objs :
     ∃ fields, Layout.decodeAll (build fill (toObjS fixed o)) =
       .ok [.mk (toObjS fixed o).kind.ty false fields [(toObjS fixed o).user] ((toObjS fixed o).subs.map subTree)] := by
   have g : Guards fill (toObjS fixed o) :=
-    guards_of_strings fill fixed o (decodeFile_strings_le r bs h objs hd o ho)
-      (decodeFile_strings_nulfree r bs h objs hd o ho) (decodeFile_no_changeset r bs h objs hd o ho) hf hs
-  obtain ⟨fields, hdec⟩ := decodeAll_build fill _ g
-  refine ⟨g, ?_, fields, hdec⟩
-  unfold Layout.WF
-  rw [hdec]
-  simpa using build_length_mod fill _ g
+    toObjS_guards fill fixed o
+      (fun s hs' => ⟨decodeFile_strings_le r bs h objs hd o ho s hs', decodeFile_strings_nulfree r bs h objs hd o ho s hs'⟩)
+      (decodeFile_no_changeset r bs h objs hd o ho) hf hs
+  exact ⟨g, (guards_wf fill _ g).1, (guards_wf fill _ g).2⟩
 
 theorem pbf_decoded_objects_wf : PbfDecodedObjectsWF :=
   fun r bs h objs fill fixed hd o ho hf hs => (pbf_decoded_objects_guards r bs h objs fill fixed hd o ho hf hs).2.1
